@@ -131,7 +131,7 @@ func (s *scLife) Configure(w *World) {
 		c.W.Crash = 0
 		s.maxRest = 0
 		c.QuiesceBudget = 15 * time.Second
-		names := []string{"grp", "g", "a:b", "grp:checkpoint:1", "x_y-z", "\u00fcn\u0131", " sp ", "grp2"}
+		names := []string{"grp", "g", "a:b", "grp:checkpoint:1", "x_y-z", "\u00fcn\u0131", " sp ", "grp2", strings.Repeat("long-group-name-", 14) + "x"}
 		switch t.Draw(10, nil) {
 		case 0:
 			s.groups = []string{Pick(t, []string{"a.b", ".a", "a.", "."}, nil)}
